@@ -30,6 +30,12 @@ class counting_set {
     m_count_cache.resize(count_cache_size, {key_type(), -1});
   }
 
+  // The copy starts with an empty cache of its own; copying m_map runs a
+  // barrier, which flushes the cache of rhs into rhs.m_map first
+  counting_set(const self_type &rhs) : m_map(rhs.m_map), pthis(this) {
+    m_count_cache.resize(count_cache_size, {key_type(), -1});
+  }
+
   void async_insert(const key_type &key) { cache_insert(key); }
 
   // void async_erase(const key_type& key) { cache_erase(key); }
